@@ -306,6 +306,12 @@ def build_graph(ctx, source_kwargs):
             entry = True
         elif op == 'external':        # a stream built by the family harness (Kafka source, Dask segment)
             s = ctx.external[nid]
+        elif op == 'scatter':
+            s = ups[0].scatter()
+            cont = True
+        elif op == 'gather':
+            s = ups[0].gather()
+            cont = True
         elif op == 'map':
             spec = tuple(n['fn'])
             s = ups[0].map(ctx.sync_fn(nid, lambda x, _s=spec: fns.f1(_s, x)))
